@@ -137,3 +137,73 @@ def c04(d):
       bad["tensor_kind_index"] = tried
       return {"status": "confirmed", "observed": bad, "expected": "clause %s" % clause}
   return {"status": "refuted", "observed": {"tensors_tried": tried}}
+
+
+@replayer("c05")
+def c05(d):
+  import tensorflow as tf
+  from qkeras import quantizers
+  w = d["witness"] or {}
+  rp = w.get("__replay__") or {}
+  bits, integer = int(w.get("bits", 4)), int(w.get("integer", 0))
+  kw = {"alpha": rp["kwargs"]["alpha"]}
+  if rp["kwargs"].get("scale_axis") is not None:
+    kw["scale_axis"] = int(rp["kwargs"]["scale_axis"])
+  if rp.get("bounds_po2"):
+    kw["min_po2_exponent"], kw["max_po2_exponent"] = int(w.get("min_e", -2)), int(w.get("max_e", 2))
+  if rp.get("frozen"):
+    kw["post_training_scale"] = float(2.0 ** int(w.get("pts_exp", 0)))
+  shape = tuple(rp["shape"])
+  clause = d["clause"]
+  x = w.get("x")
+  x = None if x is None else float(Fraction(str(x)))
+  rng = np.random.default_rng(0)
+  n = bits - 1
+  top = 2 ** n - 1
+  step = 2.0 ** (integer - n)
+  tried = 0
+  for t in _tensors(shape, x, rng):
+    q = quantizers.quantized_bits(bits, integer, 1, 1, **kw)
+    try:
+      out = np.array(q(tf.constant(t)), dtype=np.float64)
+    except Exception as e:  # pylint: disable=broad-except
+      if clause == "no_raise":
+        return {"status": "confirmed", "observed": "raised %s: %s" % (type(e).__name__, e)}
+      return {"status": "error", "detail": "quantizer raised %s: %s" % (type(e).__name__, e)}
+    tried += 1
+    scale = np.array(q.scale, dtype=np.float64)
+    scale_b = np.broadcast_to(scale, t.shape) if scale.size > 1 else np.full(t.shape, float(scale.reshape(-1)[0]))
+    bad = None
+    if clause == "scale_pos" and not np.all(scale > 0):
+      bad = {"scale": scale.reshape(-1).tolist()[:8], "note": "a group whose elements are all zero gets scale 0"}
+    if clause in ("form", "code_is_integer", "code_width"):
+      ok = scale_b > 0
+      with np.errstate(divide="ignore", invalid="ignore"):
+        z = np.where(ok, out / (scale_b * step), 0.0)
+      if not np.all(np.isfinite(out)):
+        bad = {"non_finite_output": True}
+      elif not np.allclose(z, np.round(z), atol=1e-4) or np.any(np.abs(np.round(z)) > top):
+        i = int(np.argmax(np.abs(z - np.round(z)) + (np.abs(np.round(z)) > top)))
+        bad = {"x": float(t.reshape(-1)[i]), "output": float(out.reshape(-1)[i]), "scale": float(scale_b.reshape(-1)[i]),
+               "code": float(z.reshape(-1)[i]), "top_code": top}
+    if clause in ("scale_po2", "scale_po2_bounds", "scale_exp_integer"):
+      for v in scale.reshape(-1):
+        b = v / 2.0 ** n
+        if not _is_po2(b):
+          bad = {"scale_over_2^n_not_po2": float(b)}
+        elif rp.get("bounds_po2") and not (2.0 ** kw["min_po2_exponent"] <= b <= 2.0 ** kw["max_po2_exponent"]):
+          bad = {"scale_exponent_out_of_bounds": float(b)}
+    if clause == "max_to_top" and kw["alpha"] == "auto":
+      axes = _group_axes(len(shape), kw.get("scale_axis")) if len(shape) > 1 else (0,)
+      m = np.max(np.abs(t), axis=axes, keepdims=True)
+      at_max = np.abs(t) == m
+      if np.any(at_max & (m > 0) & ~np.isclose(out, t, rtol=1e-5)):
+        i = int(np.argmax(at_max & ~np.isclose(out, t, rtol=1e-5)))
+        bad = {"x": float(t.reshape(-1)[i]), "output": float(out.reshape(-1)[i])}
+    if clause == "frozen" and rp.get("frozen"):
+      if not np.allclose(scale, kw["post_training_scale"]):
+        bad = {"scale": scale.reshape(-1).tolist()[:4], "expected": kw["post_training_scale"]}
+    if bad is not None:
+      bad.update({"bits": bits, "integer": integer, "tensor_kind_index": tried})
+      return {"status": "confirmed", "observed": bad, "expected": "clause %s" % clause}
+  return {"status": "refuted", "observed": {"tensors_tried": tried}}
